@@ -55,7 +55,8 @@ def run(prog, rep):
         return
     rep.functions.add(en.fn.qual)
     steady = ("param", en.params[3])
-    shapes = [(k, sh, kind, op) for k, sh, alts, kind, op in sem.plain_shapes() + sem.domain_shapes()]
+    # (operators over a generic operand, over special operands - a bare variable, a constant, a nested operator - and with domains)
+    shapes = [(k, sh, kind, op) for k, sh, alts, kind, op in sem.plain_shapes() + sem.domain_shapes() + sem.variant_shapes()]
     for key, shape, kind, op in shapes:
         if op in SL_OPS:
             continue
